@@ -340,7 +340,11 @@ Definition validate_borrow (e : env) (s : state) (u : nat) (c : coins) : res uni
     _ <- err_unless (all_priced e s bw) ;;
     let existing := value_of e s bw in
     _ <- err_unless (negb (proposed + existing <? min_borrow e)) ;;
-    err_unless (negb (borrowable - existing <? proposed))
+    _ <- err_unless (negb (borrowable - existing <? proposed)) ;;
+    (* the resulting position must also be within range for the liquidation valuation
+       (existing and new borrow summed per denom): IsWithinValidLtvRange(deposit, proposedBorrow) *)
+    w <- opt_err (within_ltv e s (amt dp) (cadd bw c)) ;;
+    err_unless w
   end.
 
 Definition borrow (e : env) (s : state) (u : nat) (c : coins) : res state :=
@@ -506,7 +510,7 @@ Definition borrow_rate (m : market) (cash borrows reserves : Z) : res Z :=
 (* CalculateSupplyInterestFactor *)
 Definition supply_factor (newint cash borrows reserves : Z) : Z :=    (* Dec arguments *)
   let ts := cash + borrows - reserves in
-  if ts =? 0 then PREC else dec_quo newint ts + PREC.
+  if ts <=? 0 then PREC else dec_quo newint ts + PREC.   (* !totalSupply.IsPositive() *)
 
 (* [f] is the interval's borrow interest factor
    CalculateBorrowInterestFactor(APYToSPY(1 + borrowRateApy), timeElapsed), taken as an oracle
